@@ -337,7 +337,10 @@ func c09Units(tier string) []hx.Unit {
 					e := &c09Env{}
 					u := hx.Unit{Name: fmt.Sprintf("C09/%s/n%d/%s/%s", st.name, n, c09Defects[d0], ck), Cfg: mc.Config{Deviation: true, Horizon: int64(200 * time.Second)}}
 					u.Bound = 0
-					if tier == "thorough" && n <= 2 {
+					// every execution verifies real BLS signatures (about 1 ms): one schedule deviation is
+					// affordable for single relays, and for two relays of the one-shot strategy without builder
+					// configuration
+					if tier == "thorough" && (n == 1 || (n == 2 && !st.deadline && ck == "none")) {
 						u.Bound = 1
 					}
 					u.Body = func() {
@@ -365,12 +368,23 @@ func c09Units(tier string) []hx.Unit {
 							} else {
 								r.defect = defects[mc.Choose(len(defects))]
 							}
-							r.value = vals[mc.Choose(len(vals))]
-							r.bldr = "XY"[mc.Choose(2)]
-							r.hdr = byte(1 + mc.Choose(2))
-							r.lat = lats[mc.Choose(len(lats))]
-							if st.deadline {
-								r.step = steps[mc.Choose(len(steps))]
+							switch {
+							case n == 3 && i == 2:
+								// the third relay: a second competitor of fixed value and builder
+								r.value, r.bldr, r.hdr = 20, 'Y', byte(1+mc.Choose(2))
+								r.lat = lats[mc.Choose(len(lats))]
+							case n == 3 && i == 1 && st.deadline:
+								r.value, r.bldr, r.hdr = 10, "XY"[mc.Choose(2)], 1
+								r.lat = lats[mc.Choose(len(lats))]
+								r.step = []int64{0, 3}[mc.Choose(2)]
+							default:
+								r.value = vals[mc.Choose(len(vals))]
+								r.bldr = "XY"[mc.Choose(2)]
+								r.hdr = byte(1 + mc.Choose(2))
+								r.lat = lats[mc.Choose(len(lats))]
+								if st.deadline {
+									r.step = steps[mc.Choose(len(steps))]
+								}
 							}
 							e.relays = append(e.relays, r)
 							util.VerifSetBuilderClient(r.Address(), r)
@@ -618,6 +632,20 @@ func c09Check(st *c09Strat, e *c09Env, r *mc.Result, cache bool) mc.Verdict {
 		}
 	}
 	wp := e.res.WinningParticipation
+	if wp == nil && !st.deadline && !cache {
+		// "no winner" is only right when no eligible bid arrives before the strategy's deadline: a return
+		// without a winner while a relay that answers in time is still pending gives a bid away (the one-shot
+		// strategy may return at its soft timeout only with a bid in hand)
+		for _, rl := range e.relays {
+			lat := c09Lats[rl.lat]
+			if lat < 0 || int64(lat)*int64(time.Second) >= timeout || !rl.eligible() || rl.defect == "badsig-first-high" {
+				continue
+			}
+			if sc := c09Score(e.cfgKind, rl.bldr, rl.value); sc > 0 && int64(lat)*int64(time.Second) >= e.t1 {
+				return fail("returned-before-deadline-without-winner", fmt.Sprintf("returned at %+.1fs without a winner although relay %d's eligible bid (score %d) arrives at %+ds, before the deadline", float64(e.t1)/1e9, rl.idx, sc, lat))
+			}
+		}
+	}
 	if wp == nil {
 		if best > 0 {
 			return fail("eligible-bid-ignored", fmt.Sprintf("no winner although an eligible bid with score %d had arrived", best))
@@ -712,7 +740,7 @@ func init() {
 		Title: "The relay auction selects the best eligible bid and only eligible bids",
 		Rule: "for the single-shot (best) and the repeated-until-deadline strategy and n = 1..2 (thorough 3) scripted relays: every assignment per relay of one eligibility defect or none (below relay minimum, zero value, zero fee recipient, wrong timestamp, bad signature with known key, bad signature with unknown key, error, empty response) x value x builder x payload header x latency (0, <soft, between, never) (x per-attempt value step for the deadline strategy) x 6 builder configurations (offset +/-, factor 0/50/200), with real BLS signatures; explored with deviation-bounded schedules; plus the block relay's AuctionBlock -> BuilderBid cache path; " +
 			"quick restricts latencies/values/builder configurations, thorough uses the full alphabet; " +
-			"oracle: winner = arg-max eligible score among bids handed over before the observed return, listed providers offered the winning payload and include the winner's relay, no eligible bid => no winner and nothing served; the block relay's bid cache under a reorg: every sequence of 3 (thorough 4) operations over {auction, serve} x {parent 1, parent 2} for one slot and proposer, the relay's bid depending on the parent: what is served for a parent is the winner of an auction for that parent; non-trivial = more than one relay or a defective single relay; distinct = distinct (strategy, winning score, return second)",
+			"oracle: winner = arg-max eligible score among bids handed over before the observed return, listed providers offered the winning payload and include the winner's relay, no eligible bid => no winner and nothing served; the one-shot strategy returns without a winner only when no eligible bid arrives before its timeout; the block relay's bid cache under a reorg: every sequence of 3 (thorough 4) operations over {auction, serve} x {parent 1, parent 2} for one slot and proposer, the relay's bid depending on the parent: what is served for a parent is the winner of an auction for that parent; non-trivial = more than one relay or a defective single relay; distinct = distinct (strategy, winning score, return second)",
 		Assumptions: []string{
 			"relays honour request cancellation",
 			"score = (value + offset) * factor / 100 with integer division, as documented for builder configurations",
